@@ -34,6 +34,7 @@ def run(ctx: Context) -> None:
     with ctx.section('R10.9'):
         from . import infra as _infra109
         _infra109.mesh_table_dimension_tests(ctx, 'R10.9')
+        _infra109.mesh_table_accessors(ctx, 'R10.9')
     ctx.assume("numpy.ma masked_invalid / masked_equal / masked_array semantics; UGRID attribute names are fixed by the specification")
 
     # ------------------------------------------------------------------ R10.1
